@@ -296,7 +296,9 @@ func c10units(tier string) []mc.Unit {
 	// unknown enzyme name is an error, not a panic
 	us = append(us, mc.Unit{Name: "unknown-enzyme", Run: func(r *mc.Recorder) {
 		var err error
-		p := catch(func() { _, err = clone.CutWithEnzymeByName(clone.Part{Sequence: "ACGT", Circular: false}, true, "NoSuchI") })
+		p := catch(func() {
+			_, err = clone.CutWithEnzymeByName(clone.Part{Sequence: "ACGT", Circular: false}, true, "NoSuchI")
+		})
 		if p != "" || err == nil {
 			r.Failf("unknown-enzyme", "NoSuchI", nil, "error", fmt.Sprint(p, err))
 		}
